@@ -16,12 +16,20 @@ def conj(ifs):
     return ast.BoolOp(ast.And(), list(ifs))
 
 
+class _Any(object):
+    def __iter__(self): return iter(())
+
+
 def decompile_src(src):
-    from pony.orm.decompiling import Decompiler
-    code = compile(src, '<verif>', 'eval')
-    inner = [c for c in code.co_consts if hasattr(c, 'co_code')]
-    if not inner: raise ValueError('no code object in %r' % src)
-    return Decompiler(inner[0]).ast
+    """Build a live generator / lambda object from the source (as a user program does), hand it to the real public entry
+    point pony.orm.decompiling.decompile() - including its caches keyed by code-object identity - and drop the object again,
+    so that code objects are allocated and freed over the run the way dynamically created queries are."""
+    from pony.orm.decompiling import decompile
+    scope = {'T': _Any(), 'U': _Any(), 'V': _Any()}
+    obj = eval(compile(src, '<verif>', 'eval'), scope)
+    tree = decompile(obj)[0]
+    if hasattr(obj, 'close'): obj.close()
+    return tree
 
 
 def classify(src_tree, placement):
@@ -90,10 +98,11 @@ def check_pair(name, a, b, mode, src, placement, extra_key=None):
     cls = classify(a, placement)
     ob = Ob(name, 'z3', CEX, detail='decompiled: %s | %s' % (unparse(b), how), cex={'source': src, 'placement': placement, 'names': names,
             'decompiled': unparse(b)}, time_s=dt, reproduced=True, key='%s:%s' % (placement, cls))
-    ob.replay = ('# C03 replay: compile the source, decompile with pony, evaluate both trees with plain eval\n'
-                 'import ast\nfrom pony.orm.decompiling import Decompiler\nsrc = %r\nnames = %r\n'
-                 'code = [c for c in compile(src, "<r>", "eval").co_consts if hasattr(c, "co_code")][0]\n'
-                 'print("source    :", src)\nprint("decompiled:", ast.unparse(Decompiler(code).ast))\nprint("differs on", names, %r)\nraise SystemExit(1)\n'
+    ob.replay = ('# C03 replay: build the live object, decompile with pony, evaluate both trees with plain eval\n'
+                 'import ast\nfrom pony.orm.decompiling import decompile\nsrc = %r\nnames = %r\n'
+                 'class Any:\n    def __iter__(self): return iter(())\n'
+                 'obj = eval(src, {"T": Any(), "U": Any(), "V": Any()})\n'
+                 'print("source    :", src)\nprint("decompiled:", ast.unparse(decompile(obj)[0]))\nprint("differs on", names, %r)\nraise SystemExit(1)\n'
                  % (src, names, how))
     return ob
 
@@ -163,6 +172,10 @@ def run(tier, seed, only=None):
     else:
         core, extra = l2, []
         deep = exprgen.random_deep(atoms, 3, 6000, rng) + exprgen.random_deep(atoms, 4, 3000, rng)
+    if tier == 'quick':
+        boolfam = exprgen.bool_family(2) + exprgen.bool_family(3) + rng.sample(exprgen.bool_family(4), 1500)
+    else:
+        boolfam = exprgen.bool_family(2) + exprgen.bool_family(3) + exprgen.bool_family(4)
     seen = set(); allx = []
     for e in exprs + core + extra + deep:
         if e in seen: continue
@@ -175,6 +188,13 @@ def run(tier, seed, only=None):
         progs.append(('cond', '(x for x in T if (%s))' % e))
         progs.append(('elt', '((%s) for x in T)' % e))
         progs.append(('lambda', 'lambda x: (%s)' % e))
+    for e in boolfam:
+        if e in seen: continue
+        seen.add(e)
+        progs.append(('cond', '(x for x in T if (%s))' % e))
+    for e in boolfam[::5]:
+        progs.append(('lambda', 'lambda x: (%s)' % e))
+        progs.append(('elt', '((%s) for x in T)' % e))
     for g in MULTI:
         progs.append(('gen', g))
     n = 0
@@ -188,6 +208,7 @@ def run(tier, seed, only=None):
     rep.sample({'program': progs[5][1], 'obligation': 'z3: exists a,b,c,x.p . decompiled != source ?  -> unsat'}, limit=6)
     rep.bounds = {'expressions': 'depth 1 exhaustive (%d), depth 2 %s (%d), depth 3-4 seeded random (%d)' % (
         len(exprs), 'slice+seeded sample' if tier == 'quick' else 'exhaustive', len(core) + len(extra), len(deep)),
+        'boolean skeletons': 'every and/or/not shape over 2-3 leaves x 6 leaf-kind rotations (name, is None, is not None, ==, in, call); 4 leaves: %s' % ('seeded sample of 1500' if tier == 'quick' else 'exhaustive'),
         'names': 'all integer values (Python truthiness), uninterpreted attribute/call/subscript results', 'cpython': '3.12 (the running interpreter)'}
     rep.assumptions = ['values are modelled as integers with Python truthiness; operators other than + - unary- and comparisons are uninterpreted',
                        'a decompiler exception of any type counts as "rejected"']
